@@ -249,25 +249,119 @@ theorem reject_names_present_defect (ws : Bytes) (ps : List Pkg) (hws : isAbs ws
 
 /-! ### nothing runs on reject -/
 
-/-- `build`, `test`, `run` and `check` reach the executor only after `accept` of the WHOLE loaded graph: if the
-    analysis rejects, the run consists of the diagnostic and the failing exit — whatever the command and whatever
-    target patterns or tag filters were given (a defect outside the selected part still stops everything) -/
-theorem reject_runs_nothing (r : Request) (ws : Bytes) (ps : List Pkg) (k : Kind)
+/-- an environment in which nothing but the graph can stop a command -/
+def envOk : Env := ⟨true, true, 1, true, true, true⟩
+
+/-- **Nothing runs on reject.** Statement about the command model `runCmd` (its stage order is what the CLI part of the
+    check ties to `cmds/*.go`; nothing about the Go control flow is proved here): if the analysis of the WHOLE loaded
+    graph rejects, then — whatever the command, its target patterns and tag filters, and whatever selection, cache and
+    lock would have done — the executor is not entered, no binary is started, a message is printed and the run ends
+    with the failing exit. A defect outside the selected part stops everything. -/
+theorem reject_runs_nothing (r : Request) (env : Env) (ws : Bytes) (ps : List Pkg) (k : Kind)
     (h : analyze ws ps = .reject k) :
-    runCmd Cfg.current r ws ps = [.diagnostic k, .exitFail] ∧ Ev.execute ∉ runCmd Cfg.current r ws ps := by
-  have h' : analyzeWith Cfg.current ws ps = .reject k := h
-  simp [runCmd, h']
+    Ev.execute ∉ runCmd Cfg.current r env ws ps ∧ Ev.runBinaries ∉ runCmd Cfg.current r env ws ps ∧
+    (runCmd Cfg.current r env ws ps).getLast? = some .exitFail ∧
+    (∃ e ∈ runCmd Cfg.current r env ws ps, e = .fatal ∨ ∃ k', e = .diagnostic k') := by
+  unfold analyze analyzeWith at h
+  unfold runCmd
+  cases hb : buildNodeMap ps with
+  | none => simp
+  | some ns =>
+    simp only [hb] at h ⊢
+    cases hg : buildGraph Cfg.current ws ns with
+    | some k' => simp
+    | none =>
+      simp only [hg] at h ⊢
+      split
+      · simp
+      · cases hc : constraintErrors Cfg.current ws ns with
+        | nil => simp [hc] at h
+        | cons k' ks =>
+          simp only
+          refine ⟨?_, ?_, ?_, ⟨.diagnostic k', by simp, .inr ⟨k', rfl⟩⟩⟩
+          · simp
+          · simp
+          · exact List.getLast?_concat
 
-/-- and conversely the executor is started exactly by `build` / `test` / `run` on an accepted graph -/
-theorem executes_iff (r : Request) (ws : Bytes) (ps : List Pkg) :
-    Ev.execute ∈ runCmd Cfg.current r ws ps ↔ r.cmd ≠ .check ∧ analyze ws ps = .accept := by
-  unfold analyze runCmd
-  cases analyzeWith Cfg.current ws ps <;> cases r.cmd <;> simp
+/-- **The executor is entered exactly when** the command is not `check`, the whole graph is accepted, and none of the
+    later stages stops the command (label lookup of `run`, selection, a non-empty selection, cache backend, lock).
+    In particular (→) it is never entered without `accept`. The right-hand side's `Env` conditions are outcomes, not
+    modelled behaviour. -/
+theorem executes_iff (r : Request) (env : Env) (ws : Bytes) (ps : List Pkg) :
+    Ev.execute ∈ runCmd Cfg.current r env ws ps ↔
+      r.cmd ≠ .check ∧ analyze ws ps = .accept ∧ (r.cmd = .run → env.labelsOk = true) ∧
+      env.selectOk = true ∧ env.selected ≠ 0 ∧ env.cacheOk = true ∧ env.lockOk = true := by
+  unfold analyze analyzeWith runCmd
+  cases hb : buildNodeMap ps with
+  | none => simp
+  | some ns =>
+    simp only
+    cases hg : buildGraph Cfg.current ws ns with
+    | some k' => simp
+    | none =>
+      simp only
+      cases hc : constraintErrors Cfg.current ws ns with
+      | cons k' ks =>
+        by_cases hl : (r.cmd = .run && !env.labelsOk) = true <;> simp [hl]
+      | nil =>
+        obtain ⟨cmd, pats, tags⟩ := r
+        obtain ⟨labelsOk, selectOk, selected, cacheOk, lockOk, execOk⟩ := env
+        cases cmd <;> cases labelsOk <;> cases selectOk <;> cases cacheOk <;> cases lockOk <;> cases execOk <;>
+          by_cases hs : selected = 0 <;> simp [afterAccept, hs]
 
-/-- a request that selects only a valid package of a graph that is invalid elsewhere -/
-example : runCmd Cfg.current ⟨.build, [[47, 47, 112, 47, 46, 46, 46]], []⟩ exWs
-    [⟨[exB], [⟨⟨[112], [97, 108]⟩, ⟨[], [97]⟩⟩]⟩, ⟨[{ exA with inputs := [[46, 46, 47, 115]] }], []⟩]
-    = [.diagnostic .inputEscape, .exitFail] := by decide
+/-- **Every printed diagnostic names a defect that is present** — not only the first one: `grog check` / `RunBuild`
+    print all constraint errors before exiting (`check.go`, `build.go`). (For a reported output conflict: or an
+    absolute output path, as in `reject_names_present_defect`.) -/
+theorem all_diagnostics_name_present_defects (r : Request) (env : Env) (ws : Bytes) (ps : List Pkg)
+    (hws : isAbs ws = true) (hpk : PkgRel ps) (k : Kind)
+    (h : Ev.diagnostic k ∈ runCmd Cfg.current r env ws ps) :
+    Spec.hasDefect ws (allNodes ps) k ∨ (k = .conflict ∧ Spec.hasDefect ws (allNodes ps) .outputEscape) := by
+  unfold runCmd at h
+  rcases buildNodeMap_spec ps with ⟨hb, hnd⟩ | ⟨hb, hnd⟩
+  · rw [hb] at h
+    simp only at h
+    cases hg : buildGraph Cfg.current ws (allNodes ps) with
+    | some k' =>
+      simp only [hg, List.mem_cons, Ev.diagnostic.injEq, reduceCtorEq, List.not_mem_nil, or_false] at h
+      subst h
+      apply reject_names_present_defect ws ps hws hpk
+      simp [analyze, analyzeWith, hb, hg]
+    | none =>
+      simp only [hg] at h
+      split at h
+      · simp at h
+      · cases hc : constraintErrors Cfg.current ws (allNodes ps) with
+        | nil =>
+          exfalso
+          simp only [hc] at h
+          unfold afterAccept at h
+          split at h
+          · simp at h
+          · repeat' split at h
+            all_goals simp at h
+        | cons k' ks =>
+          simp only [hc, List.mem_append, List.mem_map, List.mem_cons, reduceCtorEq, List.not_mem_nil, or_false] at h
+          obtain ⟨k'', hk'', he⟩ := h
+          simp only [Ev.diagnostic.injEq] at he
+          subst he
+          exact .inl (mem_constraintErrors hws (hc ▸ List.mem_cons.mpr hk''))
+  · rw [hb] at h
+    simp only [List.mem_cons, Ev.diagnostic.injEq, reduceCtorEq, List.not_mem_nil, or_false] at h
+    subst h
+    exact .inl hnd
+
+/-- corollary: the executor is never entered unless the whole loaded graph was accepted -/
+theorem executes_only_after_accept (r : Request) (env : Env) (ws : Bytes) (ps : List Pkg)
+    (h : Ev.execute ∈ runCmd Cfg.current r env ws ps) : analyze ws ps = .accept :=
+  ((executes_iff r env ws ps).mp h).2.1
+
+/-- a request that selects only a valid package of a graph that is invalid elsewhere: every constraint error is printed -/
+example : runCmd Cfg.current ⟨.build, [[47, 47, 112, 47, 46, 46, 46]], []⟩ envOk exWs
+    [⟨[exB], [⟨⟨[112], [97, 108]⟩, ⟨[], [97]⟩⟩]⟩, ⟨[{ exA with inputs := [[46, 46, 47, 115], [47, 120]] }], []⟩]
+    = [.diagnostic .inputEscape, .diagnostic .inputEscape, .exitFail] := by decide
+/-- the accepted graph under `grog run`, and with nothing selected -/
+example : runCmd Cfg.current ⟨.run, [], []⟩ envOk exWs exPs = [.execute, .runBinaries, .exitOk] ∧
+    runCmd Cfg.current ⟨.build, [], []⟩ { envOk with selected := 0 } exWs exPs = [.fatal, .exitFail] := by decide
 
 example : analyze exWs [⟨[{ exA with deps := [⟨[], [97]⟩] }], []⟩] = .reject .selfLoop := by decide
 
